@@ -284,6 +284,8 @@ def run_property(pid, items, bounded=(), tier='quick', seed=0, level='proof', tr
         elif first is not None:
             native_viol[it.cid] = first
 
+    known_refuted = []          # obligations that are refuted on this tree and listed as known findings: reported, never counted as proved
+
     def classify(what, cid, obligation, witness, detail):
         """known finding or violation"""
         for f in known:
@@ -298,6 +300,8 @@ def run_property(pid, items, bounded=(), tier='quick', seed=0, level='proof', tr
                         ok = False
                 if ok:
                     known_hits.append(f)
+                    if obligation:
+                        known_refuted.append(obligation)
                     return
         path = write_replay(pid, obligation or cid, {'property': pid, 'contract': cid, 'obligation': obligation, 'what': what,
                                                      'witness': witness, 'detail': detail})
@@ -365,7 +369,10 @@ def run_property(pid, items, bounded=(), tier='quick', seed=0, level='proof', tr
     samples = [{'obligation': o.name, 'function': o.func, 'smt2_bytes': len(o.smt2), 'verdict': r['verdict'], 'backend': r.get('backend'),
                 's': r.get('wall_s')} for o, r in list(zip(all_obls, results))[:: max(1, len(all_obls) // 12)]][:16]
     cov = {
-        'obligations': n_obl, 'discharged': discharged,
+        # the proof claim covers the obligations that are not known findings; those are listed next to it, refuted (KNOWN-FINDING lines)
+        'obligations': n_obl - len(known_refuted), 'discharged': discharged,
+        'obligations_generated': n_obl,
+        'refuted_known_findings': sorted(known_refuted),
         'checker_cmd': checker_cmd or ('./check %s --tier %s' % (pid, tier)),
         'trusted_base': list(trusted_base),
         'functions_under_contract': funcs,
